@@ -35,7 +35,7 @@ def jobs(tier):
         params.update(extra or {})
         tag = "".join(f":{k}={v}" for k, v in (extra or {}).items())
         out.append(dict(name=f"{fn}:m={m}{tag}", fn=fn, params=params, budget_s=budget, shard_depth=shard, group=fn,
-                        expect_outcomes={"single": ["learned", "nothing"], "multi": ["records"]}[fn]))
+                        expect_outcomes={"single": ["learned", "nothing"], "multi": ["records"], "many": ["records"]}[fn]))
     J("single", 1, dict(delims="default"))
     J("single", 1, dict(delims="custom"))
     J("single", 1, dict(delims="multi"))
@@ -43,7 +43,9 @@ def jobs(tier):
     J("multi", 2, dict(delims="one", cutoff=2), shard=5)
     J("multi", 1, dict(delims="default", cutoff=None, converter=True))
     J("multi", 2, dict(delims="one", cutoff=2, converter=True), 900, 6)
+    J("many", 11, dict(delims="default"))
     T_ = ("thorough",)
+    J("many", 25, dict(delims="one"), 1200, None, T_)
     J("multi", 2, dict(delims="default", cutoff=None), 3000, 8, T_)
     J("multi", 2, dict(delims="default", cutoff=2), 3000, 8, T_)
     J("multi", 2, dict(delims="custom", cutoff=1), 3000, 8, T_)
@@ -165,6 +167,33 @@ def build(job):
                 eng.expect(back is not None and sym_eq(back, u), "a learned URI does not compress and expand back to itself under the discovered converter")
         return "records"
 
-    return dict(single=single, multi=multi)[fn]
+    def many(eng):
+        """Numbering beyond one digit: m URIs over m fixed, pairwise different URI prefixes (given in reverse order), each
+        with an arbitrary alphanumeric identifier and an arbitrary metaprefix; only the identifiers and the metaprefix
+        are symbolic."""
+        disc = eng.mods.disc
+        eng.ascii_classes = True
+        _, alnum, _ = lang(params)
+        d = delim_chars(params)[-1]
+        mp = eng.var("metaprefix")
+        eng.assume(z3.Not(z3.Contains(_s(mp), z3.StringVal(":"))))
+        bases = [f"https://example.org/{chr(ord('a') + i // 26)}{chr(ord('a') + i % 26)}{d}" for i in range(m)]
+        tails = [eng.var(f"t{i}") for i in range(m)]
+        eng.assume(And([z3.InRe(_s(t), alnum) for t in tails]))
+        uris = [b + t for b, t in zip(bases, tails)]
+        c = disc.discover(list(reversed(uris)), delimiters=DELIMS[params["delims"]], metaprefix=mp)
+        eng.expect(len(c.records) == m, "not one record per distinct learnable URI prefix")
+        for i, b in enumerate(sorted(bases), start=1):      # (the converter lists its records by CURIE prefix: ns1, ns10, ns11, ns2, ...)
+            owners = [r for r in c.records if sym_eq(r.uri_prefix, b)]
+            eng.expect(len(owners) == 1, "a learnable URI prefix is missing from the result (or listed twice)")
+            for r in owners:
+                eng.check_holds(_s(r.prefix) == z3.Concat(_s(mp), z3.StringVal(str(i))), "records are not named <metaprefix>1, <metaprefix>2, ... in sorted URI-prefix order")
+        for u in (uris[0], uris[-1]):
+            cur = c.compress(u)
+            back = c.expand(cur) if cur is not None else None
+            eng.expect(back is not None and sym_eq(back, u), "a learned URI does not compress and expand back to itself under the discovered converter")
+        return "records"
+
+    return dict(single=single, multi=multi, many=many)[fn]
 
 
